@@ -1,4 +1,78 @@
-/* mpi_ops_op.cpp: reduction operator operations of mpi_interp (C31). */
+/* mpi_ops_op.cpp: reduction operator operations of mpi_interp (C31).
+ * Compound operations working on hex data, so that one case can batch many (operator, datatype, values) tests. */
 #include "mpi_interp.hpp"
 
 using namespace mpii;
+
+static constexpr size_t G = 64; // guard bytes around every buffer
+
+static std::vector<unsigned char> guarded(const std::vector<unsigned char>& data, size_t min_size)
+{
+  std::vector<unsigned char> b(std::max(data.size(), min_size) + 2 * G, 0xA5);
+  memcpy(b.data() + G, data.data(), data.size());
+  return b;
+}
+
+static bool guards_ok(const std::vector<unsigned char>& b, size_t used)
+{
+  for (size_t i = 0; i < G; i++)
+    if (b[i] != 0xA5 || b[G + used + i] != 0xA5)
+      return false;
+  return true;
+}
+
+/* {"op":"reduce_local_hex","in":hex,"inout":hex,"count":n,"type":t,"mop":o}
+ *   -> rc, "out": hex of inout after the call, "in_after": hex of in, "guards": bool */
+MPI_OPERATION(reduce_local_hex)
+{
+  auto in     = from_hex(a.at("in").get<std::string>());
+  auto inout  = from_hex(a.at("inout").get<std::string>());
+  size_t n_in = in.size(), n_io = inout.size();
+  auto bi = guarded(in, 0);
+  auto bo = guarded(inout, 0);
+  o["rc"] = MPI_Reduce_local(bi.data() + G, bo.data() + G, a.at("count").get<int>(), R.type(a), R.op(a));
+  o["out"]      = to_hex(bo.data() + G, n_io);
+  o["in_after"] = to_hex(bi.data() + G, n_in);
+  o["guards"]   = guards_ok(bi, n_in) && guards_ok(bo, n_io);
+}
+
+/* {"op":"allreduce_hex","send":hex (per rank: {"@":[...]}),"count":n,"type":t,"mop":o,"inplace":bool?,"comm"?}
+ *   -> rc, "out": hex of the receive buffer (same length as send), "send_after", "guards" */
+MPI_OPERATION(allreduce_hex)
+{
+  auto send   = from_hex(a.at("send").get<std::string>());
+  size_t n    = send.size();
+  bool inplace = a.value("inplace", false);
+  auto bs = guarded(send, 0);
+  std::vector<unsigned char> br(n + 2 * G, 0xA5);
+  memset(br.data() + G, 0x5C, n);
+  if (inplace)
+    memcpy(br.data() + G, send.data(), n);
+  o["rc"] = MPI_Allreduce(inplace ? MPI_IN_PLACE : static_cast<void*>(bs.data() + G), br.data() + G, a.at("count").get<int>(),
+                          R.type(a), R.op(a), R.comm(a));
+  o["out"]        = to_hex(br.data() + G, n);
+  o["send_after"] = to_hex(bs.data() + G, n);
+  o["guards"]     = guards_ok(bs, n) && guards_ok(br, n);
+}
+
+/* same through MPI_Reduce to `root` */
+MPI_OPERATION(reduce_hex)
+{
+  auto send = from_hex(a.at("send").get<std::string>());
+  size_t n  = send.size();
+  auto bs   = guarded(send, 0);
+  std::vector<unsigned char> br(n + 2 * G, 0xA5);
+  memset(br.data() + G, 0x5C, n);
+  o["rc"] = MPI_Reduce(bs.data() + G, br.data() + G, a.at("count").get<int>(), R.type(a), R.op(a), a.at("root").get<int>(), R.comm(a));
+  o["out"]        = to_hex(br.data() + G, n);
+  o["send_after"] = to_hex(bs.data() + G, n);
+  o["guards"]     = guards_ok(bs, n) && guards_ok(br, n);
+}
+
+/* {"op":"op_commutative","mop":o} */
+MPI_OPERATION(op_commutative)
+{
+  int c   = -1;
+  o["rc"] = MPI_Op_commutative(R.op(a), &c);
+  o["commute"] = c;
+}
